@@ -167,9 +167,9 @@ fn judge(s: &Spec, case: &Case, obs: &Obs) -> Vec<(String, String)> {
                 bad("routing-not-consulted", format!("calls {:?}", obs.calls.iter().map(|c| c.kind()).collect::<Vec<_>>()));
             }
             // adapter consulted exactly when no cookie vouches
-            let want_calls = if s.intent == "transfer-cookie" { 0 } else { 1 };
-            if auth_calls.len() != want_calls {
-                bad("authentication-call-count", format!("authentication service called {} times, expected {want_calls}", auth_calls.len()));
+            let cookie = s.intent == "transfer-cookie";
+            if (cookie && !auth_calls.is_empty()) || (!cookie && auth_calls.is_empty()) {
+                bad("authentication-call-count", format!("authentication service called {} times; a cookie vouches: {cookie}", auth_calls.len()));
             }
             // issued cookie carries the vouched identity
             for (_, p) in &obs.packets {
